@@ -1,84 +1,7 @@
-import Drv.Common
-import VrpModel.C06
-open Lean Drv Route C06
+import Drv.EvalCase
+open Lean Drv Route C06 Drv.EvalCase
 
 namespace Drv.C06
-
-def parseDem (dims : Nat) (j : Json) : R (Option Dem) := do
-  if j.isNull then return none
-  let parts ← listOf (listOf asInt) j
-  let z := List.replicate dims (0 : Int)
-  return some ⟨parts.getD 0 z, parts.getD 1 z, parts.getD 2 z, parts.getD 3 z⟩
-
-def parsePair (j : Json) : R (Int × Int) := do
-  let a ← listOf asInt j
-  return (a.getD 0 0, a.getD 1 0)
-
-def parsePlace (j : Json) : R JPlace := do
-  return { loc := ← natF j "loc", dur := ← intF j "dur", tws := ← listF parsePair j "tws" }
-
-def parseJob (dims : Nat) (j : Json) : R JobS := do
-  return { places := ← listF parsePlace j "places", dem := ← parseDem dims (fldD j "dem" Json.null) }
-
-def parseCtx (j : Json) : R Ctx := do
-  let n ← natF j "n"
-  let cap ← listF asInt j "cap"
-  let dims := cap.length
-  let vj ← fld j "veh"
-  let endJ := fldD vj "end" Json.null
-  let endAt ← if endJ.isNull then pure none else do
-    let a ← asArr endJ
-    let loc ← asNat (a.getD 0 Json.null)
-    let t ← asInt (a.getD 1 Json.null)
-    pure (some (loc, t))
-  let veh : Veh := { startLoc := ← natF vj "start", earliest := ← intF vj "earliest", dep := ← intF vj "dep", endAt := endAt }
-  let costs ← listF asInt j "costs"
-  let obj ← strF j "obj"
-  let tour ← listF (fun a => do
-    let act : Act := { loc := ← natF a "loc", s := ← intF a "s", e := ← intF a "e", dur := ← intF a "dur" }
-    let dem ← parseDem dims (fldD a "dem" Json.null)
-    pure ({ act := act, dem := dem } : TAct)) j "tour"
-  return { m := { n := n, dur := ← listF asInt j "dur", dist := ← listF asInt j "dist" }, veh := veh, cap := cap,
-           costs := ⟨costs.getD 0 0, costs.getD 1 0, costs.getD 2 0⟩,
-           obj := if obj == "cost" then .cost else .distance, tour := tour }
-
-def jFound (j : JobS) : Option Found → Json
-  | none => Json.null
-  | some f =>
-    let p := j.places.getD f.place ⟨0, 0, []⟩
-    Json.mkObj [("acts", Json.arr #[Json.mkObj [("dur", jInt p.dur), ("idx", jNat f.index), ("loc", jNat p.loc),
-                  ("place", jNat f.place), ("tw", Json.arr #[jInt f.tw.1, jInt f.tw.2])]]),
-                ("cost", jList jInt f.cost)]
-
-structure ImplAct where
-  idx : Nat
-  place : Nat
-  loc : Nat
-  dur : Int
-  tw : Int × Int
-
-def parseImplRes (j : Json) : R (Option (List ImplAct × List Int)) := do
-  if j.isNull then return none
-  let acts ← listF (fun a => do
-    pure ({ idx := ← natF a "idx", place := ← natF a "place", loc := ← natF a "loc", dur := ← intF a "dur",
-            tw := ← parsePair (← fld a "tw") } : ImplAct)) j "acts"
-  let cost ← listF asInt j "cost"
-  return some (acts, cost)
-
-/-- apply the implementation's activities one after another (indices refer to the shadow tour) and
-    check the result with the SPEC -/
-def appliedFeasible (c : Ctx) (dems : List (Option Dem)) (acts : List ImplAct) : Bool :=
-  let step (st : List Act × List Dem) (p : ImplAct × Option Dem) : List Act × List Dem :=
-    (insertAt st.1 p.1.idx { loc := p.1.loc, s := p.1.tw.1, e := p.1.tw.2, dur := p.1.dur },
-     insertAt st.2 p.1.idx (demOr c.zero p.2))
-  let fin := (acts.zip dems).foldl step (c.acts, c.dems)
-  tourFeas c.m.t c.veh fin.1 && capOk c.cap fin.2 && decide (acts.length = dems.length)
-
-/-- the reported place/window really belongs to the job -/
-def placeMatches (j : JobS) (a : ImplAct) : Bool :=
-  match j.places[a.place]? with
-  | none => false
-  | some p => p.loc == a.loc && p.dur == a.dur && p.tws.any (fun w => w.1 == a.tw.1 && w.2 == a.tw.2)
 
 def handle (j : Json) : R (List (String × Json)) := do
   let k ← strF j "k"
